@@ -9,6 +9,8 @@ import (
 
 	"github.com/herohde/morlock/pkg/board"
 	"github.com/herohde/morlock/pkg/board/fen"
+	"github.com/herohde/morlock/pkg/search/searchctl"
+	"github.com/seekerror/stdlib/pkg/lang"
 	"pgregory.net/rapid"
 	"verifharness/bridge"
 	"verifharness/gen"
@@ -75,6 +77,9 @@ var hostileFENs = []string{
 	"8/8/8/8/8/8/8/7K w - - +5 +7",
 	"8/8/8/8/8/8/8/7K w - - 99999999999999999999 1",
 	"8/8/8/8/8/8/8/7K w - - -1 1",
+	"8/8/8/8/8/8/8/7K w - - 9223372036854775808 1",
+	"8/8/8/8/8/8/8/7K w - - 0 18446744073709551615",
+	"8/8/8/8/8/8/8/7K w - - 4294967296 2147483648",
 	"8/8/8/8/8/8/8/7K  w - - 0 1",
 	"\t8/8/8/8/8/8/8/7K w - - 0 1\n",
 	"8/8/8/8/8/8/8/7K W - - 0 1",
@@ -143,9 +148,11 @@ func genFENText(t *rapid.T) string {
 			fields = append(fields[:i], append([]string{fields[i]}, fields[i:]...)...)
 		}
 	case 6: // clocks
-		fields[4] = rapid.SampledFrom([]string{"-1", "+3", "007", "1e3", "4294967296", "99999999999999999999", "", "x", "٣"}).Draw(t, "half")
+		// incl. the boundaries of every integer width a parser might use
+		fields[4] = rapid.SampledFrom([]string{"-1", "+3", "-0", "007", "1e3", "0x10", "1_000", "127", "128", "255", "256", "32768", "65536", "2147483647", "2147483648", "4294967295", "4294967296",
+			"9223372036854775807", "9223372036854775808", "18446744073709551615", "18446744073709551616", "-9223372036854775808", "-9223372036854775809", "99999999999999999999", "", "x", "٣"}).Draw(t, "half")
 		if rapid.Bool().Draw(t, "both") {
-			fields[5] = rapid.SampledFrom([]string{"-1", "+3", "0", "18446744073709551616", "1.0"}).Draw(t, "full")
+			fields[5] = rapid.SampledFrom([]string{"-1", "+3", "0", "1.0", "2147483648", "4294967296", "9223372036854775807", "9223372036854775808", "18446744073709551615", "18446744073709551616"}).Draw(t, "full")
 		}
 	case 7: // e.p. field
 		fields[3] = rapid.SampledFrom([]string{"h1", "a1", "e9", "i3", "e3", "e6", "E3", "e33", "--", "é3", "a8"}).Draw(t, "ep")
@@ -442,7 +449,27 @@ var checkC19EngineSeq = def("C19/engineseq", func(c engineSeqCase) error {
 	lastRejected := false
 	for i, op := range c.Ops {
 		beforeFEN, before := e.Position(), takeSnap(e.Board())
-		if op == "takeback" {
+		if op == "analyze" || op == "analyze-abandoned" {
+			// an analysis in between (run to depth 1-2 and halted, or abandoned because its context is
+			// already cancelled): looking at a game does not change which strings are legal moves of it
+			actx, cancel := context.WithCancel(ctx)
+			if op == "analyze-abandoned" {
+				cancel()
+			}
+			if out, err := e.Analyze(actx, searchctl.Options{DepthLimit: lang.Some(uint(1 + i%2))}); err == nil {
+				for range out {
+				}
+			}
+			_, _ = e.Halt(ctx)
+			cancel()
+			if e.Position() != beforeFEN {
+				return fmt.Errorf("op %d: %s changed the reported position from %q to %q", i, op, beforeFEN, e.Position())
+			}
+			if d := diffSnap(takeSnap(e.Board()), before, false); d != "" {
+				return fmt.Errorf("op %d: %s changed the game state: %s", i, op, d)
+			}
+			labels = append(labels, op)
+		} else if op == "takeback" {
 			err := e.TakeBack(ctx)
 			if ok := g.Pop(); ok != (err == nil) {
 				return fmt.Errorf("op %d: TakeBack error=%v with %d moves played", i, err, len(g.Moves))
@@ -492,6 +519,10 @@ func TestC19_engineseq(t *testing.T) {
 			p := &g.Cur().Pos
 			switch rapid.IntRange(0, 9).Draw(t, "opkind") {
 			case 0, 1:
+				if rapid.IntRange(0, 3).Draw(t, "look") == 0 {
+					c.Ops = append(c.Ops, rapid.SampledFrom([]string{"analyze", "analyze-abandoned"}).Draw(t, "how"))
+					continue
+				}
 				g.Pop()
 				c.Ops = append(c.Ops, "takeback")
 			case 2, 3: // the move just played again / the opponent's reply offered too early / a move of another position of this game
